@@ -30,3 +30,4 @@ def run(chk, program, tier):
     K.notify(chk, program)
     K.close_does(chk, program)
     K.close_order(chk, program)
+    K.connect_shuts_late_link(chk, program)
